@@ -495,7 +495,7 @@ def cases(tier, seed):
         if tier == 'thorough' or j in (0, 3, 9):
             out.append({'name': 'fault:%s|page' % name, 'family': 'fault',
                         'params': {'spec': spec, 'slice': 'page'},
-                        'budget': 200.0 if tier == 'quick' else 900.0, 'path_timeout': 40.0})
+                        'budget': 100.0 if tier == 'quick' else 900.0, 'path_timeout': 40.0})
     out.append({'name': 'badreturn', 'family': 'badreturn', 'params': {}, 'budget': 60.0, 'twin': True})
     return out
 
